@@ -400,14 +400,17 @@ Definition std_enc (h w c : nat) (p : list Z) : list Z :=
        :: Z.of_nat c :: p)%Z.
 Definition std_dec (b : list Z) (want : nat) : option (nat * nat * list Z) :=
   match b with
-  | 255%Z :: 216%Z :: h1 :: h0 :: w1 :: w0 :: c :: p =>
-      let h := Z.to_nat (h1 * 256 + h0) in
-      let w := Z.to_nat (w1 * 256 + w0) in
-      let c := Z.to_nat c in
-      if Nat.eqb (length p) (h * w * c) && Nat.ltb 0 (h * w) then
-        if Nat.eqb c want then Some (h, w, p)
-        else if Nat.eqb c 3 && Nat.eqb want 1 then Some (h, w, gray_bgr p)
-        else if Nat.eqb c 1 && Nat.eqb want 3 then Some (h, w, rep3 p)
+  | m1 :: m2 :: h1 :: h0 :: w1 :: w0 :: c :: p =>
+      (* ff d8 = "jpg"; 89 50 = a second, non-jpg container (the PNG path of from_blob) *)
+      if ((m1 =? 255) && (m2 =? 216) || (m1 =? 137) && (m2 =? 80))%Z then
+        let h := Z.to_nat (h1 * 256 + h0) in
+        let w := Z.to_nat (w1 * 256 + w0) in
+        let c := Z.to_nat c in
+        if Nat.eqb (length p) (h * w * c) && Nat.ltb 0 (h * w) then
+          if Nat.eqb c want then Some (h, w, p)
+          else if Nat.eqb c 3 && Nat.eqb want 1 then Some (h, w, gray_bgr p)
+          else if Nat.eqb c 1 && Nat.eqb want 3 then Some (h, w, rep3 p)
+          else None
         else None
       else None
   | _ => None
@@ -485,6 +488,22 @@ Definition run_c10 (ops : list op) : val := VL (snd (run_steps false digest empt
 Definition run_c10_pinned (ops : list op) : val := VL (snd (run_steps true digest empty ops)).
 Definition run_c10_full (ops : list op) : val := VL (snd (run_steps false full empty ops)).
 
+(* the same with the expected checksums handed in as machine integers (decimal literals of
+   Z are two orders of magnitude slower to read than uint63 literals): the positions at
+   which model and implementation differ - [] when they agree *)
+Definition zs (l : list int) : list Z := map Uint63.to_Z l.
+Fixpoint mism (n : nat) (got : list val) (want : list int) : list val :=
+  match got, want with
+  | [], [] => []
+  | VI z :: g, w :: ws =>
+      if Z.eqb z (Uint63.to_Z w) then mism (S n) g ws else vnat n :: mism (S n) g ws
+  | _, _ => [vnat n]
+  end.
+Definition run_c10_chk (c : list op * list int) : val :=
+  VL (mism 0 (snd (run_steps false digest empty (fst c))) (snd c)).
+Definition run_c10_pinned_chk (c : list op * list int) : val :=
+  VL (mism 0 (snd (run_steps true digest empty (fst c))) (snd c)).
+
 (* a bundle of sequences sharing a prefix: checksums along the prefix, then the
    checksum of each alternative last step taken from the state after the prefix *)
 Definition run_fan (pinned : bool) (c : list op * list op) : val :=
@@ -492,3 +511,11 @@ Definition run_fan (pinned : bool) (c : list op * list op) : val :=
   VL [VL ds; VL (map (fun o => let '(h', r) := step std_enc std_dec pinned h o in digest h' r) (snd c))].
 Definition run_c10_fan := run_fan false.
 Definition run_c10_fan_pinned := run_fan true.
+
+Definition fan_chk (pinned : bool) (c : (list op * list op) * (list int * list int)) : val :=
+  match run_fan pinned (fst c) with
+  | VL [VL a; VL b] => VL [VL (mism 0 a (fst (snd c))); VL (mism 0 b (snd (snd c)))]
+  | v => v
+  end.
+Definition run_c10_fan_chk := fan_chk false.
+Definition run_c10_fan_pinned_chk := fan_chk true.
